@@ -338,7 +338,10 @@ func c19Child(args []string) {
 			cancel()
 			os.RemoveAll(dir)
 		}
-		rr.Slow = c19SlowBody(r, filepath.Join(work, fmt.Sprintf("r%d-slow", round)))
+		rr.Slow = c19SlowBody(r, filepath.Join(work, fmt.Sprintf("r%d-slow", round)), false)
+		if rr.Slow == "" {
+			rr.Slow = c19SlowBody(r, filepath.Join(work, fmt.Sprintf("r%d-slow2", round)), true)
+		}
 		b, _ := json.Marshal(rr)
 		w.Write(b)
 		w.WriteByte('\n')
@@ -536,7 +539,6 @@ func genC19(c *Ctx) {
 	}
 }
 
-
 // gatedBody is a request body whose first Read blocks until it is released; entered is closed when the handler asks
 // for the first byte.
 type gatedBody struct {
@@ -558,7 +560,7 @@ func (g *gatedBody) Read(p []byte) (int, error) {
 // chunked transfer opens the request before the segment exists).  The channel is a renumbered one (incoming numbers and
 // times do not follow time / duration), so its start changes how uploads are numbered: in either sequential order of
 // "audio segment 1" and "video segment 1" the audio upload is accepted and stored.
-func c19SlowBody(r *Rng, dir string) string {
+func c19SlowBody(r *Rng, dir string, overlap bool) string {
 	_ = os.MkdirAll(dir, 0o755)
 	defer os.RemoveAll(dir)
 	ctx, cancel := context.WithCancel(context.Background())
@@ -572,13 +574,16 @@ func c19SlowBody(r *Rng, dir string) string {
 	if e1 != nil || e2 != nil {
 		return ""
 	}
-	shifted := r.Intn(4) != 0
+	shifted := r.Intn(4) != 0 || overlap
 	seq0, inSeq0, off := uint64(r.Pick(1, 101, 5000)), uint32(0), uint64(0)
 	inSeq0 = uint32(seq0)
 	if shifted {
 		off = uint64(r.Pick(9000, 45000, 90000, 0, 0))
 		// (also incoming numbers next to the numbers the times imply, as an encoder counting from 1 produces)
 		inSeq0 = uint32(r.Pick(8090, 300, 77, int(seq0)+1, int(seq0)+1, int(seq0)+2))
+		if overlap {
+			inSeq0 = uint32(int(seq0) + r.Pick(1, 1, 2))
+		}
 	}
 	seg := func(src string, ts uint64, k int) []byte {
 		b, err := readAsset(fmt.Sprintf(src, k%4+1))
